@@ -181,3 +181,78 @@ func vhLower(s string) string {
 	}
 	return string(b)
 }
+
+// One row whose single blob column spills to overflow pages, through the
+// public API, for payload lengths around each threshold (page size 512:
+// X = 477 local maximum, M = 39 minimum, 508 bytes per overflow page).
+//verif:prop C01,C14
+//verif:bounds page size 512; payload lengths P in {476,477,478,546,547,985,986,1055,1500}; blob content symbolic; rowid symbolic
+func VH_C01_overflow_row() {
+	lengths := [...]int{476, 477, 478, 546, 547, 985, 986, 1055, 1500}
+	p := lengths[sdb.VerifChoice(len(lengths))]
+	// record = header (header size varint, one serial type varint) + blob
+	blobLen := p - 3
+	st := 12 + 2*blobLen
+	hdrLen := 1 + sdb.VerifVarintLen(int64(st))
+	blobLen = p - hdrLen
+	content := sdb.VerifBytes(blobLen)
+	rec := sdb.VerifRecord(content)
+	sdb.VerifAssume(len(rec) == p)
+	const U, X, M = 512, 477, 39
+	local := p
+	if p > X {
+		k := M + (p-M)%(U-4)
+		if k <= X {
+			local = k
+		} else {
+			local = M
+		}
+	}
+	f := sdb.VerifNewFile(U)
+	root := f.AddPage()
+	f.Master([]sdb.VerifMasterRow{{Typ: "table", Name: "t", Tbl: "t", Root: root, SQL: "CREATE TABLE t (a)"}})
+	rowid := sdb.VerifInt64()
+	if local == p {
+		f.TableLeaf(root, []int64{rowid}, 9, [][]byte{rec})
+	} else {
+		rest := rec[local:]
+		first := 0
+		prev := 0
+		for len(rest) > 0 {
+			pg := f.AddPage()
+			n := len(rest)
+			if n > U-4 {
+				n = U - 4
+			}
+			f.Overflow(pg, 0, rest[:n])
+			if prev != 0 {
+				b := f.Page(prev)
+				b[0], b[1], b[2], b[3] = byte(pg>>24), byte(pg>>16), byte(pg>>8), byte(pg)
+			} else {
+				first = pg
+			}
+			prev = pg
+			rest = rest[n:]
+		}
+		f.TableLeafSpill(root, rowid, 9, p, rec[:local], first)
+	}
+	d, err := f.Open()
+	sdb.VerifNoErr(err, "valid file opens")
+	db := &DB{db: d}
+	n := 0
+	var got []byte
+	var gotID int64
+	err = db.Select("t", func(r Row) {
+		n++
+		got, _ = r[0].([]byte)
+		gotID, _ = r[1].(int64)
+	}, "a", "rowid")
+	sdb.VerifNoErr(err, "select succeeds")
+	sdb.VerifAssert(n == 1 && gotID == rowid && len(got) == blobLen, "one row with the full-length blob")
+	if len(got) == blobLen {
+		i := sdb.VerifInt()
+		sdb.VerifAssume(i >= 0 && i < blobLen)
+		sdb.VerifAssert(got[i] == content[i], "blob content across the overflow chain")
+	}
+	sdb.VerifReach("end")
+}
